@@ -12,6 +12,7 @@ func init() {
 	vRegister("HarnessC04_ints", HarnessC04_ints)
 	vRegister("HarnessC04_floats", HarnessC04_floats)
 	vRegister("HarnessC04_mergekeys", HarnessC04_mergekeys)
+	vRegister("HarnessC04_mergevalues", HarnessC04_mergevalues)
 	vRegister("HarnessC04_compare", HarnessC04_compare)
 	vRegister("HarnessC04_structure", HarnessC04_structure)
 	vRegister("HarnessC04_streams", HarnessC04_streams)
@@ -192,6 +193,62 @@ func HarnessC04_mergekeys() {
 	vObserve("got", got)
 	vObserve("want", want)
 	vAssert("C04.mergekey.expanded", vEq(got, want))
+}
+
+// HarnessC04_mergevalues: merge keys whose merged maps share keys holding the
+// SAME scalar, maps or lists: YAML's merge key copies whole values (earlier
+// entry of a merge list wins, local keys win); nothing is merged deeply,
+// concatenated or rejected as it would be between bkl layers.
+func HarnessC04_mergevalues() {
+	keys := []string{"a", "b"}
+	str := func(s string) *yaml.Node { return c04Scalar("!!str", s) }
+	mkVal := func(tag string) (*yaml.Node, any) {
+		switch ndChoice(4) {
+		case 0:
+			return str(tag), tag
+		case 1:
+			return str("same"), "same"
+		case 2:
+			return c04Map(str(tag), str("1"), str("k"), str("v")), map[string]any{tag: "1", "k": "v"}
+		default:
+			return &yaml.Node{Kind: yaml.SequenceNode, Tag: "!!seq", Content: []*yaml.Node{str(tag)}}, []any{tag}
+		}
+	}
+	mkAnchor := func(tag string) (*yaml.Node, map[string]any) {
+		var pairs []*yaml.Node
+		exp := map[string]any{}
+		for _, k := range keys {
+			if ndChoice(2) == 1 {
+				n, v := mkVal(tag)
+				pairs = append(pairs, str(k), n)
+				exp[k] = v
+			}
+		}
+		return c04Map(pairs...), exp
+	}
+	m1, e1 := mkAnchor("one")
+	m2, e2 := mkAnchor("two")
+	want := map[string]any{}
+	for k, v := range e2 {
+		want[k] = v
+	}
+	for k, v := range e1 {
+		want[k] = v
+	}
+	seq := &yaml.Node{Kind: yaml.SequenceNode, Tag: "!!seq", Content: []*yaml.Node{
+		{Kind: yaml.AliasNode, Alias: m1}, {Kind: yaml.AliasNode, Alias: m2}}}
+	local := []*yaml.Node{c04Scalar("!!merge", "<<"), seq}
+	if ndChoice(2) == 1 {
+		n, v := mkVal("local")
+		local = append(local, str("a"), n)
+		want["a"] = v
+	}
+	got, err := yamlTranslateNode(c04Map(local...))
+	vAssert("C04.mergevalues.accepted", err == nil)
+	vObserve("got", got)
+	vObserve("want", want)
+	vAssert("C04.mergevalues.expanded", vEq(got, want))
+	vCover("mergevalues.checked")
 }
 
 // c04Deliver builds the same logical document {n: <int>, f: <float>, l: [<int>,
